@@ -924,7 +924,42 @@ pub fn scen_tap_probes(m: &Model, setup: &Setup, iterate_k: usize, probes: usize
     let in_model = |p: &Predicate| (p.get_domain().id as usize) <= nvars;
     let mut seen: BTreeSet<String> = BTreeSet::new();
     let mut counts = [0usize; 4];
+    // calls of the semantic minimiser: input / output pairs, exact correspondence with
+    // Model/SemMin.lean (the original domains are the declared domains of the model)
+    {
+        let mut pending: Option<(usize, Vec<Predicate>)> = None;
+        let mut emitted = 0;
+        for r in &records {
+            match r.kind {
+                TapKind::MinimiseIn => pending = Some((r.level, r.reason.clone())),
+                TapKind::MinimiseOut => {
+                    if let Some((merge, input)) = pending.take() {
+                        let is_false = r.reason.len() == 1 && r.reason[0] == Predicate::trivially_false();
+                        let ok_vars = input.iter().all(|p| in_model(p) && p.get_domain().id != 0)
+                            && (is_false || r.reason.iter().all(|p| in_model(p) && p.get_domain().id != 0));
+                        if ok_vars && !input.is_empty() {
+                            let inp: Vec<Atom> = input.iter().map(|p| atom_of(*p)).collect();
+                            let line = if is_false {
+                                format!("semmin {} {} :: false", merge, fmt_atoms(&inp))
+                            } else {
+                                let outp: Vec<Atom> = r.reason.iter().map(|p| atom_of(*p)).collect();
+                                format!("semmin {} {} :: {}", merge, fmt_atoms(&inp), fmt_atoms(&outp))
+                            };
+                            if emitted < 300 && seen.insert(line.clone()) {
+                                emitted += 1;
+                                out.push(line);
+                            }
+                        }
+                    }
+                }
+                _ => {}
+            }
+        }
+    }
     for r in &records {
+        if matches!(r.kind, TapKind::MinimiseIn | TapKind::MinimiseOut) {
+            continue;
+        }
         // blocking clauses added by the iterator are not part of `m`: inferences of the nogood
         // propagator are only checked for the first solve (iterate_k == 0) at model level
         let all_in_model = r.reason.iter().all(in_model) && r.predicate.as_ref().map(in_model).unwrap_or(true);
@@ -947,6 +982,7 @@ pub fn scen_tap_probes(m: &Model, setup: &Setup, iterate_k: usize, probes: usize
             TapKind::Conflict => "conflict",
             TapKind::AnalysisReason => "analysis",
             TapKind::Learned => "learned",
+            TapKind::MinimiseIn | TapKind::MinimiseOut => unreachable!(),
         };
         counts[r.kind as usize] += 1;
         if !r.reason_all_true {
